@@ -213,7 +213,7 @@ func (ms *MapScen) setupRaw(out *MapLike) MState {
 			inTarget++
 		}
 	}
-	growThreshold := int(float64(32*slots) * 0.75)
+	growThreshold := policyOf(ms.C).grow
 	baseG, baseS := int64(0), int64(0)
 	if ms.Cycled {
 		for j := 0; j < slots; j++ {
@@ -320,7 +320,7 @@ func (ms *MapScen) setupRaw(out *MapLike) MState {
 		}
 		putKeys()
 		// anchors keep the size just above the shrink threshold
-		shrinkThreshold := (64 * slots) / 128
+		shrinkThreshold := policyOf(ms.C).shrink
 		present := 0
 		for k := 0; k < ms.NKeys; k++ {
 			if ms.Init[k] != 0 {
